@@ -56,7 +56,9 @@ def leg_procmatrix(leg, pid, tier, seed, rundir, gvh, root):
             env = dict(os.environ)
             if t != "default":
                 env["RAYON_NUM_THREADS"] = str(t)
-            procs.append((t, subprocess.Popen([gvh, "digest-run", "--seed", str(s), "--scale", str(scale), "--repeat", "2"], stdout=subprocess.PIPE, stderr=subprocess.PIPE, env=env, text=True)))
+            # every process calls the ops in a different order (call history must not matter); the first one in list order
+            order = 0 if t == threads[0] else (threads + ["default"]).index(t)
+            procs.append((t, subprocess.Popen([gvh, "digest-run", "--seed", str(s), "--scale", str(scale), "--repeat", "2", "--order", str(order)], stdout=subprocess.PIPE, stderr=subprocess.PIPE, env=env, text=True)))
         for t, p in procs:
             out, err = p.communicate(timeout=leg.get("timeout", 1800))
             if p.returncode != 0:
@@ -65,22 +67,27 @@ def leg_procmatrix(leg, pid, tier, seed, rundir, gvh, root):
             lines_total += len(per[t])
         ref_t = threads[0]
         ref = per[ref_t]
+        refmap = {}
+        for l in ref[::2]:
+            refmap[l.split()[0]] = l
         for t, lines in per.items():
             if len(lines) != len(ref):
                 violations.append({"property": pid, "check": "process_matrix.length", "sig": "process_matrix.length|digest-run|-", "expected": len(ref), "got": len(lines), "ops_seed": s, "threads": t})
                 continue
-            for a, b in zip(ref, lines):
-                names.add(a.split()[0])
+            for b in lines[::2]:
+                name = b.split()[0]
+                names.add(name)
+                a = refmap.get(name)
                 if a != b:
-                    base = a.split()[0].split(".")[0]
-                    violations.append({"property": pid, "check": "process_matrix.digest", "sig": f"process_matrix.digest|{base}|-", "op": a.split()[0], "expected": f"{a} (RAYON_NUM_THREADS={ref_t})", "got": f"{b} (RAYON_NUM_THREADS={t})", "ops_seed": s, "scale": scale, "replay_cmd": f"{gvh} digest-run --seed {s} --scale {scale}"})
+                    base = name.split(".")[0]
+                    violations.append({"property": pid, "check": "process_matrix.digest", "sig": f"process_matrix.digest|{base}|-", "op": name, "expected": f"{a} (RAYON_NUM_THREADS={ref_t}, list order)", "got": f"{b} (RAYON_NUM_THREADS={t}, shuffled call order)", "ops_seed": s, "scale": scale, "replay_cmd": f"{gvh} digest-run --seed {s} --scale {scale}"})
         # two consecutive lines of one process are the two in-process repeats
         for t, lines in per.items():
             for i in range(0, len(lines) - 1, 2):
                 if lines[i] != lines[i + 1]:
                     base = lines[i].split()[0].split(".")[0]
                     violations.append({"property": pid, "check": "process_matrix.repeat", "sig": f"process_matrix.repeat|{base}|-", "op": lines[i].split()[0], "expected": lines[i], "got": lines[i + 1], "ops_seed": s, "scale": scale, "threads": t})
-        logs[s] = {str(t): hashlib.sha1("\n".join(l).encode()).hexdigest()[:12] for t, l in per.items()}
+        logs[s] = {str(t): hashlib.sha1("\n".join(sorted(l)).encode()).hexdigest()[:12] for t, l in per.items()}
     # keep one example per signature
     seen, keep = set(), []
     for v in violations:
